@@ -486,7 +486,9 @@ def prop_matrix_function(case, ctx):
         call = (lambda: loop_hafnian_with_reduction(*args)) if fn == "loop_hafnian" else (
             lambda: nc.loop_hafnian(*args))
     elif fn == "loop_hafnian_batch":
-        args = [_sym(cplx), rng.normal(size=n) + 0j, occ[:-1].copy(), 3]
+        occ0 = occ.copy()
+        occ0[-1] = 0  # the batch varies the occupation of the last mode
+        args = [_sym(cplx), rng.normal(size=n) + 0j, occ0, 3]
         call = lambda: loop_hafnian_with_reduction_batch(*args)  # noqa: E731
     elif fn in ("torontonian", "loop_torontonian"):
         m = rng.normal(size=(2 * n, 2 * n))
